@@ -461,7 +461,11 @@ func (p *peer) respond(st *pstream, tick bool) bool {
 		st.respStarted = true
 		p.hbuf.Reset()
 		wf := func(n, v string) { p.henc.WriteField(hpack.HeaderField{Name: n, Value: v, Sensitive: true}) }
-		wf(":status", "200")
+		status := "200"
+		if sp.Status != 0 {
+			status = strconv.Itoa(sp.Status)
+		}
+		wf(":status", status)
 		wf("content-type", "application/octet-stream")
 		if !sp.NoCL {
 			wf("content-length", strconv.Itoa(sp.RespSize-sp.CLShort))
